@@ -93,6 +93,8 @@ where
             assert!(prim == exp, "float model disagrees with `as`: {} -> {:#x} vs {:#x}", v, exp, prim);
         }
     }
+    // sibling entry points: num_traits::ToPrimitive::to_f32 / to_f64 (anchored by C19: always Some of the nearest float)
+    ck!("ToPrimitive::to_f32 / to_f64", outcome(|| x.nt_to_floats()), Outcome::Returned((Some(fm::int_to_float(&z, F32) as u32), Some(fm::int_to_float(&z, F64)))));
     obs.note(|| format!("x={:?} -> f32 bits {:#x}, f64 bits {:#x}", z, fm::int_to_float(&z, F32), fm::int_to_float(&z, F64)));
     Ok(())
 }
@@ -180,6 +182,19 @@ where
         obs.nt();
     }
     ck!(format!("{} {:#x} as {}", if is32 { "f32" } else { "f64" }, bits, T::tname()), got, Outcome::Returned(pz::<T>(&exp)));
+    // sibling entry points: num_traits::FromPrimitive::from_f32 / from_f64 (anchored by C19): Some(trunc) when the float is
+    // finite, the truncated value is in range and (unsigned targets) the float is not negative; None for NaN, infinities and
+    // out-of-range values; a negative float with an unsigned target and trunc = 0 is left open by C19
+    {
+        let sign_set = bits >> (if is32 { 31 } else { 63 }) & 1 == 1;
+        let got = if is32 { outcome(|| T::nt_from_f32(f32::from_bits(bits as u32)).map(|v| st(&v))) } else { outcome(|| T::nt_from_f64(f64::from_bits(bits)).map(|v| st(&v))) };
+        match &t {
+            None => ck!("FromPrimitive::from_f32/f64 of NaN / infinity", got, Outcome::Returned(None)),
+            Some(t) if !t.fits(w, T::SIGNED) => ck!("FromPrimitive::from_f32/f64 out of range", got, Outcome::Returned(None)),
+            Some(t) if T::SIGNED || !sign_set => ck!("FromPrimitive::from_f32/f64 in range", got, Outcome::Returned(Some(pz::<T>(t)))),
+            Some(_) => {}
+        }
+    }
     // second oracle at primitive widths
     macro_rules! prim {
         ($($t:ty),*) => {$(
@@ -262,7 +277,7 @@ fn main() {
     runner::main(
         Property {
             id: "C14",
-            rule: "int -> float: [p-bit kept mantissa | discarded tail] values at every bit length L (uniform 1..W plus 23..26, 52..55, 64/65, 127..129, 1023..1025, W-2..W) with kept mantissa odd / even / all ones and tail in {0..0, 0..01, 10..0 (exact tie), 10..01, 01..1, 1..1, tie + far low bit, random}, for both f32 and f64 targets, negatives for signed types; plus structured patterns and boundary values. float -> int: bit patterns sign x exponent class {0 (subnormal/zero), 1, bias-3..bias+3, bias+p-1 +-2, bias+W-3..bias+W+2, uniform in range, largest finite, all-ones (inf/NaN), uniform} x mantissa class {0, 1, MSB, all ones, single bit, high run, uniform}, plus n + {0.5, 0.25, 0.75, 0.999, -0.5} around integers. Oracle: float model (exact decode, exact truncation, clamp to [MIN, MAX], NaN -> 0; round-to-nearest-even from the reference integer with infinity beyond the largest finite), compared bit-for-bit via to_bits(); the model is validated against `as` on primitives at start-up and in-line at 8..128 bits. NON-TRIVIAL: int -> float with bit length > p (rounding can happen); float -> int with |f| >= 1 and a fractional part, or |f| >= 2^(W-2), or non-finite, or -0.0. distinct = distinct (profile, job, inputs) by 64-bit hash. Exhaustive: all 8- and 16-bit integers to f32/f64; an f32 grid around 1.0 into the 8-bit types. A deterministic SWEEP additionally enumerates, per configuration, position-specific inputs (2^k - 1, 2^k, 2^k + 1 with their negations and complements; carry / borrow chains and power-of-two products ending at every bit position k; every shift / rotate amount; every bit index; every float exponent) - all positions on types up to 1088 bits, a sparse selection of a few hundred positions on wider types in the quick tier, all positions in the thorough tier.",
+            rule: "int -> float: [p-bit kept mantissa | discarded tail] values at every bit length L (uniform 1..W plus 23..26, 52..55, 64/65, 127..129, 1023..1025, W-2..W) with kept mantissa odd / even / all ones and tail in {0..0, 0..01, 10..0 (exact tie), 10..01, 01..1, 1..1, tie + far low bit, random}, for both f32 and f64 targets, negatives for signed types; plus structured patterns and boundary values. float -> int: bit patterns sign x exponent class {0 (subnormal/zero), 1, bias-3..bias+3, bias+p-1 +-2, bias+W-3..bias+W+2, uniform in range, largest finite, all-ones (inf/NaN), uniform} x mantissa class {0, 1, MSB, all ones, single bit, high run, uniform}, plus n + {0.5, 0.25, 0.75, 0.999, -0.5} around integers. Oracle: float model (exact decode, exact truncation, clamp to [MIN, MAX], NaN -> 0; round-to-nearest-even from the reference integer with infinity beyond the largest finite), compared bit-for-bit via to_bits(); the model is validated against `as` on primitives at start-up and in-line at 8..128 bits. NON-TRIVIAL: int -> float with bit length > p (rounding can happen); float -> int with |f| >= 1 and a fractional part, or |f| >= 2^(W-2), or non-finite, or -0.0. distinct = distinct (profile, job, inputs) by 64-bit hash. Exhaustive: all 8- and 16-bit integers to f32/f64; an f32 grid around 1.0 into the 8-bit types. A deterministic SWEEP additionally enumerates, per configuration, position-specific inputs (2^k - 1, 2^k, 2^k + 1 with their negations and complements; carry / borrow chains and power-of-two products ending at every bit position k; every shift / rotate amount; every bit index; every float exponent) - all positions on types up to 1088 bits, a sparse selection of a few hundred positions on wider types in the quick tier, all positions in the thorough tier. Sibling entry points (anchored by C19) on the same cases: ToPrimitive::to_f32/to_f64 = Some(nearest float); FromPrimitive::from_f32/from_f64 = Some(trunc) for finite in-range floats (non-negative for unsigned targets), None for NaN, infinities and out-of-range values.",
             assumptions: &[
                 "digits()/from_digits()/to_bits()/from_bits() and f32/f64::to_bits/from_bits are the trusted observation channel",
                 "float model validated against `as` on u8..u128 / i8..i128 on every run",
